@@ -4,6 +4,7 @@
   Core/Lemmas/Fee.lean (greedy left-to-right filter; uint64 accumulation; fee or 0).
 -/
 import Core.Lemmas.Fee
+import Core.Lemmas.AddBlock
 import Core.Machine
 open Std
 
@@ -210,13 +211,14 @@ example : ((C11ex.node1.produce C11ex.env C11ex.cfg 15 [C11ex.tx] "r2").map
     (fun n' => n'.led.blocks.getLast?.map (fun b => b.txs.map (·.rewardValue)))) = some (some [7, 3]) := by rfl
 
 /-- C11 (a refused tick changes nothing) with the exact refusal condition: a non-first block whose time equals
-    the last block's or lies beyond the next block time, or a last block that does not replay on the confirmed
-    outputs (copy, or `confirmLastBlock`). -/
+    the last block's or lies beyond the next block time, a time not after the tip (`AddBlock`'s guard), or a last
+    block that does not replay on the confirmed outputs (copy, or `confirmLastBlock`). -/
 theorem C11_refused_tick_unchanged (env : Env) (cfg : Cfg) (n : Node) (ts : Int) (perm : List Tx) (rewardId : String) :
     (n.produce env cfg ts perm rewardId = none → Ru.step env cfg n (.tick ts perm rewardId) = n) ∧
     (n.produce env cfg ts perm rewardId = none ↔
       (n.led.lastTs ≠ 0 ∧ (ts = n.led.lastTs ∨ ts > n.led.lastTs + cfg.interval)) ∨
       (n.led.utxos.update n.led.lastTxs (n.led.lastTs + cfg.interval)).isOk = false ∨
+      (n.led.blocks ≠ [] ∧ ts ≤ n.led.lastTs) ∨
       n.led.confirmLast.isOk = false) := by
   refine ⟨?_, Node.fee_produce_none_iff env cfg n ts perm rewardId⟩
   intro h
@@ -248,11 +250,12 @@ theorem C11_update_isOk_indep_ts (r : UtxoReg) (txs : List Tx) (t1 t2 : Int) :
 
 example : (C11ex.reg.update [C11ex.tx] 1).isOk = true ∧ (C11ex.reg.update [C11ex.tx] 2).isOk = true := ⟨rfl, rfl⟩
 
-/-- C11 (AddBlock cannot fail after the copy replay): when the last block replays on a copy of the confirmed
-    outputs (at the next block time) `confirmLastBlock` — the same replay at the block's own timestamp — also
+/-- C11 (AddBlock cannot fail after the copy replay, for a tick dated after the tip): when the last block replays
+    on a copy of the confirmed outputs (at the next block time) `confirmLastBlock` — the same replay at the block's own timestamp — also
     succeeds; hence a tick inside the time window whose copy replay succeeded always produces. -/
 theorem C11_addBlock_after_copy_ok (env : Env) (cfg : Cfg) (n : Node) (ts : Int) (perm : List Tx) (rewardId : String)
-    (copy : UtxoReg) (h : n.led.utxos.update n.led.lastTxs (n.led.lastTs + cfg.interval) = .ok copy) :
+    (copy : UtxoReg) (h : n.led.utxos.update n.led.lastTxs (n.led.lastTs + cfg.interval) = .ok copy)
+    (hat : n.led.blocks = [] ∨ n.led.lastTs < ts) :
     (∃ c, n.led.confirmLast = .ok c) ∧
     (∀ txs addrs, ∃ l', n.led.addBlock env ts txs addrs = .ok l') ∧
     (¬(n.led.lastTs ≠ 0 ∧ (ts = n.led.lastTs ∨ ts > n.led.lastTs + cfg.interval)) →
@@ -262,14 +265,18 @@ theorem C11_addBlock_after_copy_ok (env : Env) (cfg : Cfg) (n : Node) (ts : Int)
   obtain ⟨c, hc'⟩ := (fee_isOk_iff_exists _).mp hc
   refine ⟨⟨c, hc'⟩, ?_, ?_⟩
   · intro txs addrs
-    simp [Ledger.addBlock, hc']
+    rw [Ledger.addBlock_of_after_tip hat, hc']
+    exact ⟨_, rfl⟩
   · intro hw
     cases hp : n.produce env cfg ts perm rewardId with
     | some n' => exact ⟨n', rfl⟩
     | none =>
-      rcases (Node.fee_produce_none_iff env cfg n ts perm rewardId).mp hp with h1 | h1 | h1
+      rcases (Node.fee_produce_none_iff env cfg n ts perm rewardId).mp hp with h1 | h1 | h1 | h1
       · exact absurd h1 hw
       · rw [h] at h1; cases h1
+      · rcases hat with hb | hlt
+        · exact absurd hb h1.1
+        · have := h1.2; omega
       · rw [hc] at h1; cases h1
 
 example : (C11ex.led.utxos.update C11ex.led.lastTxs (C11ex.led.lastTs + C11ex.cfg.interval)).isOk = true := by rfl
